@@ -109,12 +109,40 @@ def _stmt_expr_slots(s):
     return []
 
 
+def _has_call(e):
+    if not isinstance(e, tuple):
+        return False
+    if e and e[0] in ('call', 'syscall'):
+        return True
+    return any(_has_call(x) if isinstance(x, tuple) else any(_has_call(y) for y in x) if isinstance(x, list) else False for x in e)
+
+
+def _stmt_in_discipline(s):
+    k = s[0]
+    if k == 'if':
+        if s[2] == ('skip',) and s[3] == ('skip',) and _has_call(s[1]):
+            return False          # xcmp documents dropping such a statement: the generator never asks whether its condition is evaluated
+        return _stmt_in_discipline(s[2]) and _stmt_in_discipline(s[3])
+    if k == 'while':
+        return _stmt_in_discipline(s[2])
+    if k == 'seq':
+        return all(_stmt_in_discipline(x) for x in s[1])
+    return True
+
+
+def in_discipline(P):
+    """The minimiser must not leave the generator's domain (DESIGN 4.2), or it turns a real failure into a non-finding."""
+    return all(_stmt_in_discipline(p['body']) for p in P['procs'])
+
+
 def minimise(P, inp, files, still_fails, budget=300):
     """Returns the minimised (P, inp, files)."""
     runs = [0]
 
     def ok(P2, inp2, files2):
         if runs[0] >= budget:
+            return False
+        if not in_discipline(P2):
             return False
         runs[0] += 1
         try:
